@@ -663,9 +663,14 @@ class BaseNodeVisitor(ast.NodeVisitor):
             message += f"\nIn {self.filename} at line {lineno}\n"
         else:
             message += f"\n In {self.filename}"
-        if col_offset is not None:
-            error["col_offset"] = col_offset
         lines = self._lines()
+        if col_offset is not None:
+            if lineno is not None and 1 <= lineno <= len(lines):
+                # ast counts the offset in UTF-8 bytes; report (and point the caret at)
+                # the character
+                line_bytes = lines[lineno - 1].encode("utf-8")
+                col_offset = len(line_bytes[:col_offset].decode("utf-8", "ignore"))
+            error["col_offset"] = col_offset
 
         if obey_ignore and lineno is not None:
             this_line = lines[lineno - 1]
